@@ -17,12 +17,12 @@ META = {
                  "z3 refutes 'coefficient of eps^k of the step != coefficient of the exact flow' for k = 0, 1, 2",
     "explanation": "bounded SMT check: start state and polynomial model coefficients symbolic; eps a formal variable",
     "bounds": {"quick": {"dim": 1, "series_order": 3}, "thorough": {"dim": "1-2", "series_order": 3}},
-    "outside": "constrained integrator (its retraction needs the multiplier series), dim > 2, non-polynomial targets, "
+    "outside": "constrained integrator (its Newton projection needs Laurent series in eps), dim > 2, non-polynomial targets, "
                "global error accumulation (a textbook consequence of local order + stability)",
     "stubs": ["LAPACK stubs", "LOG/SIN/COS/SQRT uninterpreted with Taylor rules in the series domain"],
     "assumptions": ["metric positive at the expansion point", "denominators recorded during execution are non-zero"],
 }
-PROBS = {"order2": L.prob_order2, "coefficients": L.prob_coefficients, "structure": L.prob_structure}
+PROBS = {"order2": L.prob_order2, "coefficients": L.prob_coefficients, "structure": L.prob_structure, "constrained": L.prob_order2_constrained}
 
 
 def run_group(rec, probs):
@@ -55,6 +55,8 @@ def cases(tier):
             if ik.endswith("steffensen") and kind != "euclid":
                 continue
             G(f"order2/{ik}/{kind}/{dim}", "order2", {"ikind": ik, "kind": kind, "dim": dim, "mkind": mkind})
+    # (constrained integrator: the Newton projection divides by the O(eps) Gram scalar J (|t| M^-1) J_prev^T, which needs
+    # Laurent series; prob_order2_constrained is kept in integlib but not registered - outside the claim)
     for k in (1, 2, 3, 4):
         for h2 in (False, True):
             G(f"coefficients/{k}/{h2}", "coefficients", {"k": k, "h2first": h2}, timeout_s=300)
